@@ -76,7 +76,7 @@ class C15(Prop):
             "point changes the output of the probe document relative to the defaults or the mode writes a file; distinct by "
             "(point, mode, document). The option space is enumerated completely in-process.")
     assumptions = ["the expected bytes are reformat_text(text read the way Path.read_text reads it) for the same options"]
-    deciding = {"inproc": {"quick": 3000, "thorough": 3000}, "auto": 9, "usage": 6, "exe": {"quick": 40, "thorough": 300}}
+    deciding = {"inproc": {"quick": 3000, "thorough": 3000}, "auto": 9, "usage": 10, "exe": {"quick": 40, "thorough": 300}}
     soft_timeout = 900.0
     hard_timeout = 2400.0
 
@@ -275,7 +275,9 @@ class C15(Prop):
 
     def _check_usage(self, case, col):
         for argv, stdin in ([[], None], [["--auto"], None], [["--list-files"], None], [["-o", "out.md", "probe.md", "second.md"], None],
-                            [["--inplace", "-"], "text\n"], [["-w", "40"], None], [["--auto", "-"], "text\n"], [["nonexistent.md"], None]):
+                            [["--inplace", "-"], "text\n"], [["-w", "40"], None], [["--auto", "-"], "text\n"], [["nonexistent.md"], None],
+                            [["--inplace", "-", "probe.md"], "text\n"], [["--auto", "probe.md", "-"], "text\n"], [["-o", "out.md"], "text\n"],
+                            [["-o", "sub/dir/out.md"], "text\n"], [["--nobackup", "-o", "x.md", "probe.md", "second.md"], None]):
             d = self.fresh(DOCS)
             before = self.listing(d)
             rc, out, err = self.main(list(argv), d, stdin=stdin)
